@@ -4,7 +4,7 @@ import z3
 from . import _cm, _log
 from ..lemmas_log import lemmas_add_log, lemmas_law
 
-KERNELS = ["countmin._counter2value", "countmin._rand", "countmin._log_counter", "countmin._query_log16", "countmin._query_log8", "countmin._add_log16", "countmin._add_log8", "countmin._merge_log16", "countmin._merge_log8"]
+KERNELS = ["countmin._counter2value", "countmin._rand", "countmin._log_counter", "countmin._query_log16", "countmin._query_log8", "countmin._add_log16", "countmin._add_log8", "countmin._add_ngram_log16", "countmin._add_ngram_log8", "countmin._merge_log16", "countmin._merge_log8"]
 
 
 def run(chk):
@@ -18,6 +18,9 @@ def run(chk):
             if ":c06:" in name or "exactly-v" in name:
                 chk.prove("lemma:" + name, hyps, goal)
         chk.cover("add clauses (%s)" % tag, hyl)
+    from . import _glue, _oracle
+
+    _glue.glue_part(chk, ["CountMinLog16", "CountMinLog8"], {"add", "add_ngram", "query"}, lambda: _oracle.c12_equiv(chk, 60, ["CountMinLog16", "CountMinLog8"]))
     # canary: a mis-exponentiated probability (base^+(c-nr)) makes the step biased
     from ..contracts.countmin import DEC
     from ..sem import POW
